@@ -107,6 +107,8 @@ pub fn main() -> ! {
     if let Some(n) = std::env::var("E3_LIMIT").ok().and_then(|s| s.parse::<usize>().ok()) {
         sigs.truncate(n);
     }
+    let first = sigs.len();
+    sigs.extend(c8_world::res_alphabet(first));
     let built = prepare(&sigs, jobs);
     let ncases = run.pick(1usize, 2usize);
 
@@ -139,6 +141,9 @@ pub fn main() -> ! {
         for s in &sigs {
             let cs = c8_world::cases(s, ncases);
             for dir in [Dir::Export, Dir::Import] {
+                if s.res && dir == Dir::Export {
+                    continue;
+                }
                 for (ci, (v1, v2)) in cs.iter().enumerate() {
                     scens.push(Scen { variant: v, k: s.k, dir: dir.clone(), ci, v1: v1.clone(), v2: v2.clone() });
                 }
